@@ -212,3 +212,54 @@ def int_witness(t, want, inputs, extra=()):
         if a.op == 'const' and b.op == 'const' and a.args[0] != b.args[0]:
             return {tm.show(x): v for x, v in zip(inputs, combo)}, a.args[0], b.args[0]
     return None
+
+
+def compare_terms(td, tc, nan=False):
+    """are two lane terms the same function of the inputs?  (status, detail)   PROVED: identical term / same normal form under every valuation of the
+    comparisons; REFUTED: separated in a realisable case (witness printed); UNDECIDED otherwise"""
+    if td is tc:
+        return R.PROVED, 'identical term'
+    try:
+        r = P.decision_equal(td, tc, nan=nan)
+    except Exception as e:            # noqa
+        r = None
+    if r is True:
+        return R.PROVED, 'same normal form under every valuation of the comparisons'
+    if r:
+        return R.REFUTED, 'different results when %s: %s versus %s' % (r[1], P.show_poly(r[2], limit=4), P.show_poly(r[3], limit=4))
+    pc = P.PCtx()
+    try:
+        a, b = pc.fpoly(td), pc.fpoly(tc)
+        if a == b:
+            return R.PROVED, 'same normal form'
+        if lanes_only(a - b):
+            return R.REFUTED, 'different polynomial: %s ; %s' % (P.show_poly(a, limit=4), P.show_poly(b, limit=4))
+    except Exception:                 # noqa
+        pass
+    d = tm.diff(td, tc)
+    return R.UNDECIDED, 'terms differ at %s: %s ; %s' % (d[0], tm.show(d[1], 4), tm.show(d[2], 4))
+
+
+def config_pair_case(name, rule, k, kc, outs, rename=None, what='the configured build'):
+    """outs: [(lane label, output param, byte offset in k, byte offset in kc, nbytes)] ; rename: {input term of kc: input term of k} (layout changes)"""
+    def judge(ctx):
+        if ctx.compile_error(k):
+            return []
+        ec = ctx.compile_error(kc)
+        if ec:
+            return [R.ob(name, 'existence', R.REFUTED, 'compiles in the default configuration but not under %s: %s' % (what, ec), kernel=kc.source())]
+        try:
+            itd = ctx.fn(k)
+        except I.Unsupported as e:
+            return [R.ob(name, 'engine', R.UNDECIDED, 'default build not analysable: %s' % e)]
+        itc = ctx.fn(kc)
+        res = []
+        for label, oname, offd, offc, nb in outs:
+            td = I.out_lane(itd, oname, offd, nb)
+            tc = I.out_lane(itc, oname, offc, nb)
+            if rename:
+                tc = tm.substitute(tc, rename)
+            st, detail = compare_terms(td, tc)
+            res.append(R.ob('%s[%s]' % (name, label), rule, st, detail, where=R.where_of(itc, tc) if st != R.PROVED else None, kernel=kc.source() + '  // ' + kc.cfg.describe()))
+        return res
+    return R.Case(name, [k, kc], judge)
